@@ -618,7 +618,7 @@ theorem gen_segment_xsection :
 theorem gen_stacked_xsections :
     (PW.Gen.Xsect.stackDenomSrc = "np.dot(rays, self.normal)" ∧ PW.Gen.Xsect.stackMaskOk = some true ∧
       PW.Gen.Xsect.stackPointSrc =
-        "np.vstack([np.dot(-pts + self.reference_point, self.normal) / MASKED, np.dot(-pts + self.reference_point, self.normal) / MASKED, np.dot(-pts + self.reference_point, self.normal) / MASKED]).T * rays + pts" ∧
+        "_vcat([np.dot(-pts + self.reference_point, self.normal) / MASKED, np.dot(-pts + self.reference_point, self.normal) / MASKED, np.dot(-pts + self.reference_point, self.normal) / MASKED]).T * rays + pts" ∧
       PW.Gen.Xsect.segmentStackSrc =
         "(_set(PTS, _0[~_set(VALID, _0[VALID], ~(np.any(PTS[VALID] < a[VALID] and PTS[VALID] < b[VALID], axis=1) or np.any(a[VALID] < PTS[VALID] and b[VALID] < PTS[VALID], axis=1)))], np.nan), _set(VALID, _0[VALID], ~(np.any(PTS[VALID] < a[VALID] and PTS[VALID] < b[VALID], axis=1) or np.any(a[VALID] < PTS[VALID] and b[VALID] < PTS[VALID], axis=1))))" ∧
       PW.Gen.Xsect.stackSegmentStart = "a") ∧
@@ -731,7 +731,7 @@ theorem gen_function_shapes :
        ("Plane.line_segment_xsection", [], "self, a, b", ["expr vg.shape.check(locals(), 'a', (3,))", "expr vg.shape.check(locals(), 'b', (3,))"], 0),
        ("Plane.line_xsections", [], "self, pts, rays", ["expr vg.shape.check(locals(), 'rays', (vg.shape.check(locals(), 'pts', (-1, 3)), 3))"], 0),
        ("Plane.line_segment_xsections", [], "self, a, b", ["expr vg.shape.check(locals(), 'b', (vg.shape.check(locals(), 'a', (-1, 3)), 3))"], 0),
-       ("intersect_segment_with_plane", [], "start_points, segment_vectors, points_on_plane, plane_normals", ["expr vg.shape.check(locals(), 'segment_vectors', start_points.shape)", "expr vg.shape.check(locals(), 'points_on_plane', start_points.shape)", "expr vg.shape.check(locals(), 'plane_normals', start_points.shape)"], 0),
+       ("intersect_segment_with_plane", [], "start_points, segment_vectors, points_on_plane, plane_normals", ["expr vg.shape.check(locals(), 'plane_normals', start_points.shape)", "expr vg.shape.check(locals(), 'points_on_plane', start_points.shape)", "expr vg.shape.check(locals(), 'segment_vectors', start_points.shape)"], 0),
        ("Polyline.intersect_plane", [], "self, plane, ret_edge_indices=False", [], 0)] := by rfl
 
 end PW.C14
